@@ -221,6 +221,8 @@ def observe(c, p, seconds=10.0):
         return [1, ERR["OutOfFuel"]]
     except CaseTimeout:
         return [1, 101]
+    except monoidal.VerifHookError:
+        return [1, 102]
     except AssertionError:
         raise
     except Exception as exc:   # noqa: the class is the observation
